@@ -41,6 +41,11 @@ AUDITED = {
         1, "capacity = number of commands the caller holds in memory"),
 }
 
+# audited reasons that are arguments about who calls the function: checked against the call graph
+AUDITED_CALLERS = {
+    "SongBuilder::into_song|panic:panic": {"SongBuilder::handle_song_field", "SongBuilder::finish"},
+}
+
 TAG_UNWRAP_FNS = {
     "mpd_client::responses::song::SongBuilder::handle_song_field",
     "mpd_client::responses::list::List::from_frame",
@@ -266,6 +271,17 @@ def run(rep, progs, tier):
             used[s.key] = used.get(s.key, 0) + 1
             aud = AUDITED.get(s.key)
             if aud is not None and used[s.key] <= aud[0]:
+                # an audited reason that is an argument about the callers is checked against the call graph
+                allowed = AUDITED_CALLERS.get(s.key)
+                if allowed is not None:
+                    from ..callgraph import short
+                    root = prog.bodies.get(s.body.root, s.body)
+                    callers = sorted({short(norm(prog.bodies.get(prog.bodies[c].root, prog.bodies[c]).name)) for c in cg.callers.get(root.id, ())
+                                      if not prog.bodies[c].raw.get("derived")})
+                    extra = [c for c in callers if c not in allowed]
+                    rep.check(not extra, "C12.inventory", inst + " callers", s.where,
+                              "the audited reason for `%s` in %s holds only for the callers %s, but it is also called from %s" % (s.kind, s.fn, sorted(allowed), extra),
+                              detail={"callers": callers})
                 rep.ok("C12.inventory", inst, detail={"where": s.where, "audited": aud[1]})
             else:
                 rep.fail("C12.inventory", "%s#%d" % (inst, used[s.key]) if aud else inst, s.where,
